@@ -78,7 +78,7 @@ def _kind_compatible(a, b):
     """real vs complex results are allowed to differ only if the complex one has zero imaginary part"""
     return a == b
 
-def compare(h, f, get_R, p, t, exact):
+def compare(h, f, get_R, p, t, exact, direct=False):
     """h, f: encoded history / pristine values.  get_R(): encoded pristine value
     at 2p+64 bits (called only when needed).  Returns (verdict, detail) with
     verdict in 'identical' | 'within' | 'inadmissible' | 'violation'."""
@@ -106,6 +106,25 @@ def compare(h, f, get_R, p, t, exact):
         # non-numeric leaves (strings, bools, other objects) must be identical
         return 'violation', {'why': 'type/shape differs', 'history': codec.short(hs, 300), 'pristine': codec.short(fs, 300)}
     R = get_R()
+    if (R is None or R[0] == 'exc') and direct:
+        # a fixed-precision context (fp): the same float inputs must give the same float outputs whatever came
+        # before, up to the low bits a better-filled cache may legitimately change - judged without a reference
+        pairs = [(a, b) for a, b in zip(hv, fv)]
+        if any(isinstance(a, str) or isinstance(b, str) for a, b in pairs):
+            if any((isinstance(a, str) or isinstance(b, str)) and a != b for a, b in pairs):
+                return 'violation', {'why': 'special value differs', 'history': codec.short(hs, 200), 'pristine': codec.short(fs, 200)}
+            pairs = [(a, b) for a, b in pairs if not isinstance(a, str)]
+        if not pairs:
+            return 'identical', None
+        norm = max(abs(b) for a, b in pairs)
+        eh = max(abs(a - b) for a, b in pairs)
+        if norm == 0:
+            return ('violation', {'why': 'nonzero where pristine is zero'}) if eh else ('identical', None)
+        if eh > norm * Fraction(2) ** (t + 2 - p):
+            return 'violation', {'why': 'fixed-precision result differs from the pristine one beyond the low bits',
+                                 'rel_diff_log2': _log2(eh / norm), 'bound_log2': t + 2 - p,
+                                 'history': codec.short(hs, 300), 'pristine': codec.short(fs, 300)}
+        return 'within', {'exact_mismatch': True}
     if R is None or R[0] == 'exc':
         return 'inadmissible', {'why': 'no high-precision reference'}
     rv, rsh = [], []
